@@ -246,6 +246,21 @@ def c07_scope(l: int, r: int, al: int, p1: int, p2: int, x: int, y: int, z: int,
     m2, why = try_impl(e)
     if m2 is None or not R.same(m2, ref):
         return f"meaning after expansion {m2} != reference {R.canon(ref)} :: {sx}"
+    # passes that rebuild the circuit from core objects must not merge statements of different scopes
+    from jaqalpaq.core.algorithm import fill_in_let
+    try:
+        f = fill_in_let(c)
+        m3, why = try_impl(f)
+        e2 = expand_macros(f)
+        m4, why4 = try_impl(e2)
+    except JaqalError as ex:
+        return f"fill_in_let/expand_macros reject a valid program: {ex} :: {sx}"
+    except Exception as ex:
+        return f"non-JaqalError escaped from fill_in_let: {exc(ex)} :: {sx}"
+    if m3 is None or not R.same(m3, ref):
+        return f"meaning after fill_in_let {m3} ({why}) != reference {R.canon(ref)} :: {sx}"
+    if m4 is None or not R.same(m4, ref):
+        return f"meaning after fill_in_let + expand_macros {m4} != reference {R.canon(ref)} :: {sx}"
     # non-interference: the main-body statement means the same when the macros are not there
     alone = head + [stmt]
     ra, _ = try_ref(alone)
@@ -284,7 +299,8 @@ def timing_program(shape, l0, l1, l2, l3):
         body = [["parallel_block", ["sequential_block", ["parallel_block", G(), G()]] + [G() for _ in range(l0)],
                  ["sequential_block"] + [G() for _ in range(l1)] + [["parallel_block", seq(l2), G()]]], ["parallel_block", seq(l3)]]
     elif shape == 3:
-        body = [["subcircuit_block", 3] + [G() for _ in range(l0)] + [["parallel_block", seq(l1), seq(l2)]]] + [G() for _ in range(l3)]
+        body = [["subcircuit_block", 3] + [G() for _ in range(l0)] + [["parallel_block", seq(l1), seq(l2)]]] + [G() for _ in range(l3)] \
+            + [["subcircuit_block", 5] + [G() for _ in range(l1)], G(), ["loop", 2, ["sequential_block", ["subcircuit_block", ""] + [G() for _ in range(l2)]]]]
     elif shape == 4:
         body = [["loop", 2, ["sequential_block", ["parallel_block", G(), seq(l0)]]], ["parallel_block", seq(l1), G()], ["loop", l2, seq(l3)]]
     else:
